@@ -406,7 +406,23 @@ func init() {
 		}
 		return in.St.BV(uint64(int64(strings.Index(a, b))), 64)
 	}
-	natives["strings.TrimPrefix"] = func(in *Interp, fn *ssa.Function, args []Value) Value {
+	natives["strings.IndexByte"] = func(in *Interp, fn *ssa.Function, args []Value) Value {
+		a, ok1 := in.cStr(args[0])
+		b, ok2 := in.cUint(args[1])
+		if !ok1 || !ok2 {
+			panic(in.unsupported("strings.IndexByte on symbolic values"))
+		}
+		return in.St.BV(uint64(int64(strings.IndexByte(a, byte(b)))), 64)
+	}
+	natives["strings.LastIndex"] = func(in *Interp, fn *ssa.Function, args []Value) Value {
+		a, ok1 := in.cStr(args[0])
+		b, ok2 := in.cStr(args[1])
+		if !ok1 || !ok2 {
+			panic(in.unsupported("strings.LastIndex on symbolic strings"))
+		}
+		return in.St.BV(uint64(int64(strings.LastIndex(a, b))), 64)
+	}
+	natives["strings.TrimPrefix"] =func(in *Interp, fn *ssa.Function, args []Value) Value {
 		a, ok1 := in.cStr(args[0])
 		b, ok2 := in.cStr(args[1])
 		if !ok1 || !ok2 {
